@@ -67,6 +67,11 @@ func c18TourA() []tourStep {
 			return flows.OTPLogin(s, "B1", U3, v, true), ok
 		}),
 		reqStep("otp-clear(B1)", "", func(s *world.Stack, w *world.World) (world.Req, bool) { return flows.OTPClear(s, "B1"), true }),
+		// u1 holds a remember token of its own when its password is recovered: the reset has tokens to revoke
+		reqStep("login(B2,u1,pw,rm)", "", func(s *world.Stack, w *world.World) (world.Req, bool) {
+			return flows.Login(s, "B2", U1, P1, true), true
+		}),
+		reqStep("logout(B2)#u1", "", func(s *world.Stack, w *world.World) (world.Req, bool) { return flows.Logout(s, "B2"), true }),
 		reqStep("login(B2,u1,pw:wrong)", "", func(s *world.Stack, w *world.World) (world.Req, bool) {
 			return flows.Login(s, "B2", U1, "Wr0ng!pass", false), true
 		}),
